@@ -24,6 +24,7 @@ pub fn scenario(seed: u64, campaign: &'static str, prop: &'static str, idx: u64)
     for i in 0..n {
         let target = targets[rng.below(targets.len())];
         let (class, bytes) = mutated_request(&mut rng, target, sc.request_size as usize);
+        let bytes = if rng.chance(1, 3) { decorate(&mut rng, &bytes) } else { bytes };
         let mut c = Conn::simple(i, if overlapped { 0 } else { i as u32 }, bytes, class);
         if c.request.0.is_empty() {
             c.request = crate::util::Bytes(b"G".to_vec());
